@@ -1,5 +1,5 @@
 (* C20 - property theorems only. *)
-From HV Require Import Prelude C20_Model C20_Check C20_Proofs C20_Proofs2.
+From HV Require Import Prelude C20_Model C20_Check C20_Proofs C20_Proofs2 C20_Proofs3.
 
 (* The up-front decision (validate_params, then _prepare_coords) accepts exactly
    the inputs meeting every documented requirement. *)
@@ -103,3 +103,17 @@ Theorem C20_region_cut_nonempty :
   forall ms s e, ms <> [] -> s <= e -> region_cut ms s e <> [].
 Proof. exact region_cut_nonempty_l. Qed.
 Print Assumptions C20_region_cut_nonempty.
+
+(* The checker's narrow "documented violation" classifiers really violate the
+   corresponding conjunct of WellFormed ... *)
+Theorem C20_violated_sound :
+  forall i c, In c (violated i) -> 1 <= c <= 12 /\ ~ clause c i.
+Proof. exact violated_sound_l. Qed.
+Print Assumptions C20_violated_sound.
+
+(* ... so a refusal the checker accepts names a requirement that the input violates. *)
+Theorem C20_checked_refusal_names_violation :
+  forall i o s k, holds_outcome i o s = true -> o = Reject k -> k <> 0 ->
+  ~ Valid i -> side_ok_b i = true -> violated i <> [] -> ~ clause (clause_of k) i.
+Proof. exact checked_refusal_names_violation_l. Qed.
+Print Assumptions C20_checked_refusal_names_violation.
